@@ -86,6 +86,11 @@ class ModelGroup:
         model: ModelFunction
         for model in self:
             self._log.info("Model: %r", model.name)
+
+            if debug:
+                # Detector just before this model, to find what this model changes
+                last_full_ds = detector.to_xarray().copy(deep=True)
+
             try:
                 model(detector)
             except Exception as exc:
@@ -168,13 +173,6 @@ class ModelGroup:
                         f"{pipeline_key}/{model_group_key}/{model_key}"
                     ] = datatree_model
 
-                # TODO: Refactor. Is 'last' needed ?
-                last_key: str = "last"
-                if last_key not in detector.intermediate:
-                    last_full_ds: xr.Dataset = xr.zeros_like(ds)
-                else:
-                    last_full_ds = detector.intermediate[last_key]  # type: ignore
-
                 for name, data_array in ds.data_vars.items():
                     if name in last_full_ds:
                         previous_data_array = last_full_ds[name]
@@ -187,5 +185,3 @@ class ModelGroup:
                         detector.intermediate[
                             f"{pipeline_key}/{model_group_key}/{model_key}/{name}"
                         ] = data_array
-
-                detector.intermediate[last_key] = xr.DataTree(ds.copy(deep=True))
